@@ -638,7 +638,12 @@ func (p *Parser) parseTernaryExpression(condition ast.Expression) ast.Expression
 		Condition: condition,
 	}
 	p.nextToken() //skip the '?'
-	precedence := p.curPrecedence()
+
+	// Both arms are complete expressions: parse them at the lowest
+	// binding power.  (The binding power of whichever token happens to
+	// start the true-arm must not decide how far the arms extend:
+	// `a ? (b) : c + d` is `a ? b : (c + d)`, not `(a ? b : c) + d`.)
+	precedence := LOWEST
 	expression.IfTrue = p.parseExpression(precedence)
 
 	// error?
